@@ -85,6 +85,21 @@ CHECKS["C31"] = ("model_checking",
     "TLC enumerates every argument combination (default route, partial route tables, default hosting cost, partial hosting tables, extra attributes) for "
     "individually built agents and for create_agents over list / range (zero padded) / tuple-of-lists indexes, with AgentDefs!Obs; the real objects are "
     "observed through route(), hosting_cost(), the default accessors, getattr and extra_attr().", _NC, "DESIGN.md section 4 C31")
+
+CHECKS["C16"] = ("model_checking",
+    "TLC-enumerated DCOP structures with the graphs defined by Graphs.tla, compared node by node with the real graph builders",
+    "TLC (Gen_C16) enumerates every multiset of at most 3 constraints of arity 1-3 over 1-4 variables (isolated variables, unary, parallel, n-ary) and samples "
+    "8-variable structures, printing HyperGraph / FactorGraph / OrderedGraph of Graphs.tla; the real constraints_hypergraph, factor_graph and ordered_graph "
+    "build_computation_graph (both call forms, both insertion orders, matrix and expression constraints, names whose lexical order differs from numeric order) "
+    "are compared on nodes, constraints, neighbours, links and next/previous chain.", _NC, "DESIGN.md section 4 C16")
+CHECKS["C17"] = ("model_checking",
+    "real pseudo-trees judged by TLC against Graphs!PTBad (full definition) / Graphs!PTBadCert (DFS-number certificate) on TLC-enumerated and scale-family inputs",
+    "The real pseudotree.build_computation_graph is run on every structure of Gen_C16 (exhaustive up to 4 (quick) / 5 variables, sampled up to 12) and on scale "
+    "families (chains, stars, sparse random graphs up to 1200 (quick) / 3000 variables, forests with isolated variables and ternary constraints, cliques); "
+    "TLC judges each output: one node per variable, parent/children and pseudo links mutually consistent, acyclic, pseudo-parents are proper ancestors, every "
+    "constraint-sharing pair directly linked, links only along constraints, node constraints exact; an exception is a violation.",
+    "Trusted: TLC's evaluation of Graphs.tla, the projection through get_dfs_relations and the DFS numbering of the certificate form in vlib/props/C17.py. "
+    "Model-checking level for <= 5 variables (exhaustive inputs), exploration beyond.", "DESIGN.md section 4 C17")
 NOT_YET = "check not built yet in this snapshot (work in progress, see DESIGN.md section 9)"
 
 fix_commits = subprocess.run(["git", "-C", "/repo", "log", "--format=%h %s", "aeaae91..HEAD"], capture_output=True, text=True).stdout.splitlines()
